@@ -18,6 +18,9 @@ i.e. it silently assumes that no such pair occurs.  Here the assumption is expli
   written: blank for a zero-width or non-fitting cell, none for an OSC 66 write): text writes of
   different rows are separated by a CUP, and within a row they are written in column order;
 * `frame_displays_clustering` — hence the display clause holds on the clustering terminal;
+* `NoJoinNeighbours` / `render_no_adjacent_join_tight` / `frame_displays_clustering_tight` — the tight
+  form: only horizontally consecutive *shown* cells must not join (`neighbours_of_rows`: it follows from
+  `NoJoinRows`);
 * `no_join_needed` — and without the hypothesis it fails (decide): D|E on a 4×1 screen.
 
 Repair evaluated, not made: `render()` could force `reposition` before a cell whose grapheme joins
@@ -73,6 +76,47 @@ theorem frame_displays_clustering (joins : String → String → Bool) (cw : Str
   rw [clustering_terminal_agrees joins cw t _ (render_no_adjacent_join joins cw f hjoin)]
   exact VaxisModel.Props.C01Sixel.frame_displays_current cw f t hrest hbad hlen hlast hgc hnc hlc hrows hcells hagree hsp hwf hcur hlp
 
+/-! ### The tight form of the hypothesis -/
+
+/-- No two horizontally consecutive *shown* cells of a row join: `headToks` lists, per row, the glyph
+    tokens of the cells the terminal shows (a cell covered by a wide glyph to its left is not one; an
+    image cell is a separator), and `adjOk` says no raw text write in that list directly follows one
+    it joins.  This is exactly the situation the finding is about. -/
+def NoJoinNeighbours (joins : String → String → Bool) (cw : String → Nat) (caps : Caps) (g : Grid) : Prop :=
+  ∀ r ∈ g, adjOk joins none (headToks cw caps 0 r) = true
+
+/-- It is weaker than `NoJoinRows`. -/
+theorem neighbours_of_rows (joins : String → String → Bool) (cw : String → Nat) (caps : Caps) (g : Grid)
+    (h : NoJoinRows joins cw caps g) : NoJoinNeighbours joins cw caps g :=
+  fun r hr => tight_of_pairwise joins cw caps r (h r hr)
+
+/-- Every frame is free of joining adjacent text writes under the tight hypothesis: two raw text
+    writes are adjacent on the wire only if they are the glyphs of consecutive shown cells of one row
+    (a skipped cell in between forces a CUP; rows begin with a CUP). -/
+theorem render_no_adjacent_join_tight (joins : String → String → Bool) (cw : String → Nat) (f : Frame)
+    (h : NoJoinNeighbours joins cw f.caps f.next) : adjOk joins none (renderFrameS cw f).2 = true :=
+  renderFrameS_adjOk_tight joins cw f h
+
+/-- **The display clause on a clustering terminal, tight hypothesis.** -/
+theorem frame_displays_clustering_tight (joins : String → String → Bool) (cw : String → Nat) (f : Frame) (t : Term)
+    (hjoin : NoJoinNeighbours joins cw f.caps f.next)
+    (hrest : Rest t) (hbad : t.bad = none)
+    (hlen : t.grid.length = f.next.length) (hlast : f.last.length = f.next.length)
+    (hgc : ∀ r ∈ t.grid, r.length = t.cols) (hnc : ∀ r ∈ f.next, r.length = t.cols)
+    (hlc : ∀ r ∈ f.last, r.length = t.cols) (hrows : t.rows = f.next.length)
+    (hcells : ∀ r ∈ f.next, ∀ c ∈ r, c.sixel = false ∧ 0 ≤ c.w ∧ WidthOk cw f.caps c)
+    (hagree : f.refresh = false → Agree cw f.caps t f.last)
+    (hsp : cw "20" = 1)
+    (hwf : f.refresh = true → ∀ r ∈ t.grid, WFRow 0 r)
+    (hcur : f.cursorNext.visible = true →
+      (0 ≤ f.cursorNext.row ∧ f.cursorNext.row < t.rows) ∧ (0 ≤ f.cursorNext.col ∧ f.cursorNext.col < t.cols))
+    (hlp : t.linkParams = "") :
+    (runC joins cw t (renderFrameS cw f).2).bad = none ∧
+    (runC joins cw t (renderFrameS cw f).2).grid = Expected.expectedC cw f.caps f.next ∧
+    Agree cw f.caps (runC joins cw t (renderFrameS cw f).2) (renderFrameS cw f).1 := by
+  rw [clustering_terminal_agrees joins cw t _ (render_no_adjacent_join_tight joins cw f hjoin)]
+  exact VaxisModel.Props.C01Sixel.frame_displays_current cw f t hrest hbad hlen hlast hgc hnc hlc hrows hcells hagree hsp hwf hcur hlp
+
 /-! ### The hypothesis is needed (F112d) -/
 
 def cwEx : String → Nat := fun g => if g = "" then 0 else if g = "D" ∨ g = "E" then 2 else 1
@@ -84,6 +128,13 @@ def frameDE : Frame :=
 /-- The same two cells in the other order do not join. -/
 def frameED : Frame := { frameDE with next := [[({ g := "E" } : Cell), {}, { g := "D" }, {}]] }
 
+/-- The tight hypothesis separates what the row-pairwise one cannot: D, a, E (D and E not neighbours)
+    is admitted by the tight form and not by the pairwise one; the clustering terminal shows it. -/
+example :
+    let row : List Cell := [{ g := "D" }, {}, { g := "61" }, { g := "E" }, {}]
+    adjOk joinsEx none (headToks cwEx {} 0 row) = true ∧
+    ¬ (texts (shownRow cwEx {} row)).Pairwise (fun a b => joinsEx a b = false) := by decide
+
 /-- On the plain terminal the frame shows the screen; on the clustering terminal the E joins the D:
     nothing is drawn in column 2 and the result is terminal specific — the display clause fails.
     The frame violates `NoJoinRows`, and the tokens do contain the adjacent pair. -/
@@ -93,6 +144,7 @@ theorem no_join_needed :
     (runC joinsEx cwEx (Term.init 4 1) (renderFrameS cwEx frameDE).2).grid ≠ Expected.expectedC cwEx {} frameDE.next ∧
     (runC joinsEx cwEx (Term.init 4 1) (renderFrameS cwEx frameDE).2).bad ≠ none ∧
     adjOk joinsEx none (renderFrameS cwEx frameDE).2 = false ∧
+    adjOk joinsEx none (headToks cwEx {} 0 [({ g := "D" } : Cell), {}, { g := "E" }, {}]) = false ∧
     texts (shownRow cwEx {} [({ g := "D" } : Cell), {}, { g := "E" }, {}]) = ["D", "20", "E", "20"] := by
   decide
 
